@@ -73,6 +73,10 @@ benign("throttle-start-reads-remembered-fields", "maybeStartRecording takes no a
        (TH, "func (throttler *ThrottledRecorder) maybeStartRecording(background *cptvframe.Frame, tempThresh uint16) error {\n\tif throttler.bucket.Available() >= throttler.minRecordingLength {\n\t\tif err := throttler.recorder.StartRecording(background, tempThresh); err != nil {",
         "func (throttler *ThrottledRecorder) maybeStartRecording() error {\n\tif throttler.bucket.Available() >= throttler.minRecordingLength {\n\t\tif err := throttler.recorder.StartRecording(throttler.backgroundFrame, throttler.tempThresh); err != nil {", False))
 
+benign("writer-pool-constructor", "thermal-writer buffer pool built by a helper that allocates each buffer freshly (correct refactor)",
+       (TW, "\tspentFrames := make(chan []byte, inFlight)\n\tfor i := 0; i < inFlight; i++ {\n\t\tspentFrames <- make([]byte, header.FrameSize())\n\t}\n", "\tspentFrames := newFramePool(inFlight, header.FrameSize())\n", False),
+       (TW, "func writer(", "func newFramePool(n, frameSize int) chan []byte {\n\tpool := make(chan []byte, n)\n\tfor i := 0; i < n; i++ {\n\t\tpool <- make([]byte, frameSize)\n\t}\n\treturn pool\n}\n\nfunc writer(", False))
+
 here = os.path.dirname(os.path.abspath(__file__))
 for f in os.listdir(os.path.join(here, "benign")):
     os.unlink(os.path.join(here, "benign", f))
